@@ -223,19 +223,49 @@ def centering(ctx):
         M = chosen[s] * p2c[s]
         ctx.ob('CENTERING', C2P + '::dump', 'setting %s: the %d×%d×%d primitive supercell has integer conventional indices' % (s, chosen[s], chosen[s], chosen[s]), all(x.is_Integer for x in M), str(M.tolist()), node=mp[0], key='multip ' + s)
     cb = ctx.fn(C2P, 'check_setting_basis')
-    arms = string_dispatch(cb.body, 'setting')
+
+    def sites_tested(setting):
+        # check_setting_basis interpreted on the unit cube at the origin with a recording site search: the positions searched are the fractions themselves
+        searched = []
+
+        class _B(PyStub):
+            vects, origin = np.array(sp.eye(3).tolist(), dtype=object), arr([0, 0, 0])
+
+            def identifyfamily(self, **k):
+                return {'i': 'cubic', 'f': 'cubic', 'a': 'orthorhombic', 'b': 'orthorhombic', 'c': 'orthorhombic', 't1': 'hexagonal', 't2': 'hexagonal'}.get(setting, 'cubic')
+
+            def position_relative_to_cartesian(self, r):
+                return np.asarray(r, dtype=object)
+
+            def vector_crystal_to_cartesian(self, r):
+                return np.asarray(r, dtype=object)
+
+        class _A(PyStub):
+            atype = arr([1] * 8)
+
+        class _U(PyStub):
+            box, atoms = _B(), _A()
+
+        def iop(system, pos, **k):
+            searched.append(tuple(sp.nsimplify(x_, rational=True) for x_ in np.ravel(pos)))
+            return np.array([True] + [False] * 7)
+        ev_ = SymEval(module_aliases(ctx.mod(C2P)))
+        ev_.globals = {'index_of_pos': iop}
+        try:
+            ev_.run_fn(cb, [_U(), setting], {})
+        except (Opaque, WouldRaise) as e:
+            raise AnalysisError('check_setting_basis (setting %s): %s' % (setting, e))
+        return searched
     for s in SETTINGS:
-        ctx.need(s in arms, 'check_setting_basis: no arm for setting %s' % s)
-        rp = [x for x in arms[s] if isinstance(x, ast.Assign) and norm(x.targets[0]) == 'relpos']
-        ctx.need(len(rp) == 1, 'check_setting_basis: relpos of setting %s not found' % s)
-        val = SymEval().ev(rp[0].value, Path({}))
-        got = {tuple(sp.Rational(x) % 1 for x in row) for row in np.asarray(val, dtype=object).tolist()}
+        val = sites_tested(s)
+        ctx.need(val, 'check_setting_basis searches no site for setting %s' % s)
+        got = {tuple(sp.Rational(x) % 1 for x in row) for row in val}
         pts = set()
         for nvec in itertools.product(range(-3, 4), repeat=3):
             v = sp.Matrix([nvec]) * p2c[s]
             pts.add(tuple(x % 1 for x in v))
         ctx.ob('CENTERING', C2P + '::check_setting_basis', 'setting %s: the basis positions tested are exactly the lattice points of the centering (mod 1), %d of them' % (s, DETS[s]),
-               got == pts and len(got) == DETS[s], 'tested %s, lattice points %s' % (sorted(map(str, got)), sorted(map(str, pts))), node=rp[0], key='basis ' + s)
+               got == pts and len(got) == DETS[s], 'tested %s, lattice points %s' % (sorted(map(str, got)), sorted(map(str, pts))), node=cb, key='basis ' + s)
 
 
 def basis_sites(ctx):
@@ -440,6 +470,22 @@ def conversion(ctx):
     ctx.ob('CONVERSION', P2C + '::dump', 'primitive→conventional re-expresses the cell along the conventional vectors (in primitive indices) of the same setting, by rotate()', bool(ok), node=d2)
 
 
+def _same_on_integers(got, want, U, bound=2):
+    """equality of two expressions in the nine integer indices: by algebra if the computer-algebra system can show it, else on every index matrix with entries in
+    -bound..bound for the three indices the expressions depend on (min / max of subset sums have several closed forms the CAS does not identify)"""
+    got, want = sp.sympify(got), sp.sympify(want)
+    if sp.simplify(got - want) == 0:
+        return True
+    syms = sorted((got.free_symbols | want.free_symbols), key=str)
+    if not syms or len(syms) > 4 or not all(s_ in set(np.ravel(U)) for s_ in syms):
+        return False
+    for vals in itertools.product(range(-bound - 1, bound + 2), repeat=len(syms)):
+        sub = dict(zip(syms, vals))
+        if sp.simplify(got.subs(sub) - want.subs(sub)) != 0:
+            return False
+    return True
+
+
 def rotate(ctx):
     fn = ctx.fn(SYS, 'System.rotate')
     loc = SYS + '::System.rotate'
@@ -507,7 +553,7 @@ def rotate(ctx):
         for k in range(3):
             col = [c_[k] for c_ in corners]
             mk = got_m[0][k]
-            good = isinstance(mk, (tuple, list)) and len(mk) == 2 and sp.simplify(mk[0] - (sp.Min(*col) - 1)) == 0 and sp.simplify(mk[1] - (sp.Max(*col) + 1)) == 0
+            good = isinstance(mk, (tuple, list)) and len(mk) == 2 and _same_on_integers(mk[0], sp.Min(*col) - 1, U) and _same_on_integers(mk[1], sp.Max(*col) + 1, U)
             ctx.ob('ROTATE', loc, 'replication range along %s is (smallest corner index − 1, largest corner index + 1) over all eight corners of the new cell' % 'abc'[k], bool(good), str(mk)[:160], node=ss[0], key='mults ' + 'abc'[k] + '_mults')
     else:
         ctx.ob('ROTATE', loc, 'the bounding supercell is built from three replication ranges', False, str(got_m)[:200], node=ss[0], key='mults')
